@@ -519,7 +519,15 @@ impl<Sink: TokenSink> XmlTokenizer<Sink> {
         assert!(c.is_some());
     }
 
-    fn unconsume(&self, input: &BufferQueue, buf: StrTendril) {
+    fn unconsume(&self, input: &BufferQueue, mut buf: StrTendril) {
+        // The text to push back was read through get_char(). If its last character is a CR
+        // that was folded to LF (ignore_lf is still set), hand the CR itself back so that it
+        // is folded exactly once more when it is read again.
+        if self.ignore_lf.get() && buf.ends_with('\n') {
+            self.ignore_lf.set(false);
+            buf.pop_back(1);
+            buf.push_char('\r');
+        }
         input.push_front(buf);
     }
 }
